@@ -148,6 +148,9 @@ class BackendVSA(Backend):
         if isinstance(e, numbers.Number):
             return e
         if isinstance(e, StridedInterval):
+            if e.reversed and e.bits > 8 and not e.is_top and not e.is_empty:
+                # the flag stands for the byte-swapped image of the interval that the bounds describe
+                return claripy.Reverse(self._abstract(e.reverse()))
             if e.is_top:
                 return claripy.TSI(e.bits, explicit_name=e.name)
             if e.is_empty:
